@@ -18,6 +18,40 @@ DIST_TABLES = ((1, 2, 3), (1, 1, 2), (2, 2, 2), (3, 2, 1))
 REC_TABLES = ((), (1, 2), (0, 1, 2))
 
 
+def _ctor_fields(prog, cls, call_model) -> dict:
+    """attributes the decider's constructor creates that are empty containers / constants (copied fresh for every run)"""
+    import copy
+    if cls is None:
+        return {}
+    cache = _ctor_fields.__dict__.setdefault("cache", {})
+    if cls.fullname not in cache:
+        out = {}
+        try:
+            from .creationmodel import DSGE_MOD, build_decider
+
+            def cm_(it, call, env, args, kwargs):
+                nm = call_name(call)
+                if nm == "get_min_tree_depth":
+                    return 1
+                return call_model(it, call, env, args, kwargs)
+            obj, why = build_decider(prog, cls, cls.module.name == DSGE_MOD, 3, cm_, {})
+            if obj is not None:
+                for k_, v_ in obj.fields.items():
+                    if isinstance(v_, (dict, list, set)) and not v_ or isinstance(v_, (int, float, str, bool)) or v_ is None:
+                        out[k_] = v_
+        except Exception:
+            out = {}
+        cache[cls.fullname] = out
+    return {k_: copy.copy(v_) for k_, v_ in cache[cls.fullname].items()}
+
+
+def _cursor_table():
+    from ..modelinterp import DDict
+    d = DDict()
+    d.factory = int
+    return d
+
+
 def chooser_runs(ctx, f: FunctionInfo):
     """yield (scenario dict, offered list, fitting list, list handed to choice | None, returned value, raised, notes)"""
     prog = ctx.prog
@@ -35,57 +69,79 @@ def chooser_runs(ctx, f: FunctionInfo):
                 for c in (0, 1, 2, 3):
                     for exp in (0, 1):
                         for flag in ((True, False) if keeps_flag else (None,)):
-                            captured: list = []
-                            gene = c + 4 * exp + 8 * (M - 1)          # 0 .. 23 over the scenarios
+                            def one(gene):
+                                captured: list = []
 
-                            def call_model(it, call, env, args, kwargs, dist=dist, captured=captured, gene=gene):
-                                nm = call_name(call)
-                                if nm == "get_distance_to_terminal" and len(args) == 1 and isinstance(args[0], Sym):
-                                    return dist.get(args[0].tag, UNKNOWN)
-                                if nm in ("choice", "choice_weighted") and args and isinstance(args[0], list) and isinstance(call.func, ast.Attribute):
-                                    captured.append(list(args[0]))
-                                    if not args[0]:
-                                        it.throw("IndexError: choice from an empty list", call)
-                                    return args[0][0]
-                                if nm == "get" and isinstance(call.func, ast.Attribute) and len(args) == 2:
-                                    recv_ = it.ev(call.func.value, env, 9)
-                                    if isinstance(recv_, Sym) and recv_.tag == "genotype":
-                                        return gene          # a gene of the genotype-backed deciders: any integer (varied over the scenarios)
-                                if nm == "get_weights":
-                                    return {a.tag: 1.0 for a in alts}
-                                if nm == "get_max_node_depth":
-                                    return max(dist.values())
-                                if nm == "get_min_tree_depth":
-                                    return min(dist.values())
-                                return None
+                                def call_model(it, call, env, args, kwargs, dist=dist, captured=captured, gene=gene):
+                                    nm = call_name(call)
+                                    if nm == "get_distance_to_terminal" and len(args) == 1 and isinstance(args[0], Sym):
+                                        return dist.get(args[0].tag, UNKNOWN)
+                                    if nm in ("choice", "choice_weighted") and args and isinstance(args[0], list) and isinstance(call.func, ast.Attribute):
+                                        captured.append(list(args[0]))
+                                        if not args[0]:
+                                            it.throw("IndexError: choice from an empty list", call)
+                                        return args[0][0]
+                                    if nm == "get" and isinstance(call.func, ast.Attribute) and len(args) == 2:
+                                        recv_ = it.ev(call.func.value, env, 9)
+                                        if isinstance(recv_, Sym) and recv_.tag == "genotype":
+                                            return gene          # a gene of the genotype-backed deciders: any integer (varied over the scenarios)
+                                    if nm == "get_weights":
+                                        return {a.tag: 1.0 for a in alts}
+                                    if nm == "get_max_node_depth":
+                                        return max(dist.values())
+                                    if nm == "get_min_tree_depth":
+                                        return min(dist.values())
+                                    return None
 
-                            it = Interp(prog, cls, lambda *_: None, call_model, max_depth=6, max_traces=4)
-                            it.strict_index = True
-                            it.heap[("grammar", "recursive_prods")] = set(recset)
-                            # the grammar knows more symbols than the ones offered: a chooser that draws from the grammar's tables can return one of those
-                            it.heap[("grammar", "all_nodes")] = [Sym("other0")] + list(alts) + [Sym("other9")]
-                            it.heap[("grammar", "alternatives")] = {p_: [Sym("other0")] + list(alts) + [Sym("other9")] for p_ in ps if p_ not in (alts_p, ctx_p)}
-                            env = {"self": Sym("self"), "self.max_depth": M, "self.grammar": Sym("grammar"), "self.random": Sym("random"),
-                                   "self.genotype": Sym("genotype"), "self.positions": {},
-                                   alts_p: list(alts),
-                                   ctx_p: Obj("LocalSynthesisContext", {"depth": c, "nodes": 1, "expansions": exp, "dependent_values": {}})}
-                            if flag is not None:
-                                env["self.expanding"] = flag
-                            for p_ in ps:
-                                env.setdefault(p_, Sym(p_))
-                            scen = {"distances": dict(dist), "recursive": sorted(recset), "max_depth": M, "depth": c, "expansions": exp, "expanding": flag}
-                            try:
-                                runs = it.run(f, env)
-                            except Budget:
-                                yield scen, alts, None, None, UNKNOWN, False, ["too many interpretations"]
-                                continue
-                            fits = [a for a in alts if dist[a.tag] <= M - c]
-                            if len(runs) != 1:
-                                yield scen, alts, fits, None, UNKNOWN, False, [f"{len(runs)} interpretations ({it.fork_sites[:1]})"]
-                                continue
-                            trace, rv, notes = runs[0]
-                            raised = any(e.kind == "raise" for e in trace)
-                            yield scen, alts, fits, (captured[-1] if captured else None), rv, raised, list(notes)
+                                it = Interp(prog, cls, lambda *_: None, call_model, max_depth=6, max_traces=4)
+                                it.strict_index = True
+                                it.heap[("grammar", "recursive_prods")] = set(recset)
+                                # the grammar knows more symbols than the ones offered: a chooser that draws from the grammar's tables can return one of those
+                                it.heap[("grammar", "all_nodes")] = [Sym("other0")] + list(alts) + [Sym("other9")]
+                                it.heap[("grammar", "alternatives")] = {p_: [Sym("other0")] + list(alts) + [Sym("other9")] for p_ in ps if p_ not in (alts_p, ctx_p)}
+                                env = {"self": Sym("self"), "self.max_depth": M, "self.grammar": Sym("grammar"), "self.random": Sym("random"),
+                                       "self.genotype": Sym("genotype"), "self.positions": _cursor_table(),
+                                       alts_p: list(alts),
+                                       ctx_p: Obj("LocalSynthesisContext", {"depth": c, "nodes": 1, "expansions": exp, "dependent_values": {}})}
+                                # whatever else the decider's own constructor sets up (tables, caches) is part of the object: taken from the
+                                # interpreted constructor, attributes scripted above win
+                                for k_, v_ in _ctor_fields(prog, cls, call_model).items():
+                                    env.setdefault("self." + k_, v_)
+                                if flag is not None:
+                                    env["self.expanding"] = flag
+                                for p_ in ps:
+                                    env.setdefault(p_, Sym(p_))
+                                scen = {"distances": dict(dist), "recursive": sorted(recset), "max_depth": M, "depth": c, "expansions": exp, "expanding": flag}
+                                try:
+                                    runs = it.run(f, env)
+                                except Budget:
+                                    return scen, alts, None, None, UNKNOWN, False, ["too many interpretations"]
+                                fits = [a for a in alts if dist[a.tag] <= M - c]
+                                if len(runs) != 1:
+                                    return scen, alts, fits, None, UNKNOWN, False, [f"{len(runs)} interpretations ({it.fork_sites[:1]})"]
+                                trace, rv, notes = runs[0]
+                                raised = any(e.kind == "raise" for e in trace)
+                                return scen, alts, fits, (captured[-1] if captured else None), rv, raised, list(notes)
+
+                            res0 = one(c + 4 * exp + 8 * (M - 1))          # gene 0 .. 23 over the scenarios
+                            scen0, alts0, fits0, lst0, rv0, raised0, notes0 = res0
+                            if lst0 is None and not notes0 and not raised0 and isinstance(rv0, Sym) and fits0 is not None:
+                                # a gene-indexed chooser (no list handed to random.choice): the set of alternatives it can return over the genes
+                                # plays the part of that list
+                                returned, ok_ = [], True
+                                for g_ in range(2 * len(alts)):
+                                    r_ = one(g_)
+                                    if r_[6] or r_[5] or not isinstance(r_[4], Sym):
+                                        ok_ = False
+                                        break
+                                    returned.append(r_[4])
+                                if ok_:
+                                    foreign = [x for x in returned if not any(x == a for a in alts)]
+                                    lst0 = [a for a in alts if any(a == x for x in returned)]
+                                    if foreign:
+                                        rv0 = foreign[0]
+                                    res0 = (scen0, alts0, fits0, lst0, rv0, raised0, notes0)
+                            yield res0
 
 
 def chooser_verdicts(ctx, f: FunctionInfo, exact: bool):
